@@ -90,11 +90,25 @@ def classify(an, f, r, sh, n, lv):
     p = sh.protected(n)
     if p:
         return p
+    # std::vector<bool> packs 64 elements into one word: writes to DIFFERENT owned indices are read-modify-writes of the same memory
+    # location, so an owned index does not make the write exclusive
+    if _bitpacked(f, root):
+        return None
     for ix in idx:
         w = sh.owned_expr(ix)
         if w:
             return w
     return None
+
+
+def _bitpacked(f, root):
+    t = ''
+    if root is not None and root.get('k') == 'ref':
+        t = f.unit.type(f.decl(root['d']).get('ct'))
+    elif root is not None and root.get('k') == 'mem' and isinstance(root.get('d'), int) and 0 <= root['d'] < len(f.unit.decls):
+        ent = f.unit.decls[root['d']]
+        t = f.unit.type(ent.get('ct') if ent.get('ct') is not None else ent.get('t'))
+    return 'vector<bool' in (t or '')
 
 
 def rule_A(ck, units, floor):
